@@ -177,6 +177,9 @@ func (d *Decoder) stepHelper_acceptValue(majorByte byte, tokenSlot *Token) (done
 }
 
 func (d *Decoder) stepHelper_acceptKey(majorByte byte, tokenSlot *Token) (done bool, err error) {
+	if majorByte != '"' { // json map keys must be strings
+		return true, fmt.Errorf("invalid char while expecting start of key: %s", byteToString(majorByte))
+	}
 	return d.stepHelper_acceptKV("key", majorByte, tokenSlot)
 }
 
